@@ -16,6 +16,7 @@ KEYS = [b"url", b"path", b"protocol", b"host", b"username", b"password"]
 
 
 def run(db, chk):
+    decode_split_rule(db, chk)
     w = db.one(W)
     fl = Flow(w)
     validates = w.calls_to(r"context::serde::validate$")
@@ -113,3 +114,30 @@ def run(db, chk):
     # decoder validates too
     dv = [c for f in [d] + db.closures_of(d) for c in f.calls_to(r"context::serde::validate$")]
     chk.floor("validate call on the decode path", len(dv), 1)
+
+
+def decode_split_rule(db, chk):
+    """the reader takes everything after the FIRST '=' as the value (values may contain '=': padded tokens, query strings): in Context::from_bytes
+    and its helpers a line is split with a bound of two pieces (splitn(2, ..), split_once, find + slice) - never with an unbounded split whose
+    later pieces would be dropped."""
+    fam = [f for f in db.by_crate["gix_credentials"] if "protocol::context::serde::decode" in f.name and f.kind != "promoted"]
+    chk.floor("gix_credentials decode functions", len(fam), 2)
+    bounded = unbounded = 0
+    for f in fam:
+        for c in f.calls():
+            if c.is_(r"::splitn$|::splitn_str$") and len(c.args) > 1 and "p" not in c.args[1] and c.args[1].get("v") == 2:
+                bounded += 1
+            elif c.is_(r"::split_once$|::split_once_str$|::find_byte$|::find$|::position$"):
+                bounded += 1
+            elif c.is_(r"::split$|::split_str$|::rsplit$|::rsplit_str$|::splitn$|::splitn_str$|::fields_with$") and not c.is_(r"::lines$"):
+                # a split at line terminators is the line loop, not the key/value cut: skip it when the separator is a constant without '='
+                seps = [r[1] for r in Flow(f).roots(c.args[-1], stop_named=False) if r[0] == "const"] if len(c.args) > 1 else []
+                if seps and all(isinstance(x, (bytes, str)) and (b"=" if isinstance(x, bytes) else "=") not in x for x in seps) or \
+                        seps and all(isinstance(x, int) and x != 61 for x in seps):
+                    continue
+                unbounded += 1
+                chk.ob("value-is-everything-after-first-equals", "%s %s@%d" % (f.name.split("::")[-1], c.name.split("::")[-1], c.line), False,
+                       "a key=value line is cut into more than two pieces: `password=p=q` would be read as `p`", c.where(), key="decode-split|%s" % c.name.split("::")[-1])
+    chk.floor("bounded key/value split in the decoder", bounded, 1)
+    if not unbounded:
+        chk.ob("value-is-everything-after-first-equals", "Context::from_bytes (%d bounded split(s), no unbounded one)" % bounded, True)
